@@ -28,7 +28,17 @@ def geometry(topo, i, style):
     a, b, _ = topo[i]
     (xa, ya), (xb, yb) = NODE_POS[a], NODE_POS[b]
     pts = [(xa, ya)]
-    if style == 'mid' or a == b:
+    if style == 'long':
+        # scale probe: 33 + (i mod 3) * 14 unique intermediate vertices on a wavy line from the source to the target (a loop for a == b)
+        m = 33 + (i % 3) * 14
+        for k in range(1, m + 1):
+            f = k / (m + 1.0)
+            bump = (11.0 + 3 * i) * (1 if k % 2 else -1) + 0.25 * k
+            if a == b:
+                pts.append((xa + 40.0 * f * (1 - f) * (i + 1) + 0.5 * k, ya + bump))
+            else:
+                pts.append((xa + (xb - xa) * f + (bump if ya != yb else 0.0) + 0.001 * (i + 1), ya + (yb - ya) * f + (bump if ya == yb else 0.125 * k)))
+    elif style == 'mid' or a == b:
         off = 7.0 * (i + 1)
         if i % 2 == 0 and a != b:
             pts.append(((xa + xb) / 2 + off, (ya + yb) / 2 + off + 1))
